@@ -531,6 +531,7 @@ func runC16(c *core.Ctx) {
 		gotDir := make([][]string, burstG)
 		got := make([][]string, burstG)
 		envBad := make([]string, burstG)
+		gotCmd := make([][]string, burstG)
 		var bw sync.WaitGroup
 		go2 := make(chan struct{})
 		for j := 0; j < burstG; j++ {
@@ -548,6 +549,19 @@ func runC16(c *core.Ctx) {
 					if j < G {
 						// one goroutine per run directory (the inspection command records that directory)
 						gotDir[j] = append(gotDir[j], verifyWithDir(actors[j]))
+					}
+					// a command in a directory of this goroutine's own: the process-wide state it inherits
+					// (file creation mask, working directory) is nobody else's business
+					if j%3 == 0 {
+						own := filepath.Join(actors[j%G].dirs[0], fmt.Sprintf("burst-cmd-%d", j))
+						os.MkdirAll(own, 0755)
+						bp, err := intoto.RunCommand([]string{"sh", "-c", "umask; rm -f made; : > made; ls -l made | cut -c1-10; pwd"}, own)
+						if err != nil {
+							gotCmd[j] = append(gotCmd[j], "error: "+err.Error())
+						} else {
+							so, _ := bp["stdout"].(string)
+							gotCmd[j] = append(gotCmd[j], strings.ReplaceAll(so, own, "<own dir>"))
+						}
 					}
 					// an envelope of this goroutine's own: what is set is what is signed, dumped and loaded back
 					for rep := 0; rep < 4; rep++ {
@@ -591,6 +605,20 @@ func runC16(c *core.Ctx) {
 				if r != want && bad < 9 {
 					bad++
 					c.Violation("concurrent InTotoVerifyWithDirectory (own run directory, inspection named like everybody else's; burst) returns another result than the same call made sequentially", id, map[string]any{"goroutine": j, "iteration": n, "concurrent": r, "sequential": want})
+				}
+			}
+		}
+		for j := 0; j < burstG; j += 3 {
+			own := filepath.Join(actors[j%G].dirs[0], fmt.Sprintf("burst-cmd-%d", j))
+			want := ""
+			if bp, err := intoto.RunCommand([]string{"sh", "-c", "umask; rm -f made; : > made; ls -l made | cut -c1-10; pwd"}, own); err == nil { // sequential now
+				so, _ := bp["stdout"].(string)
+				want = strings.ReplaceAll(so, own, "<own dir>")
+			}
+			for n, r := range gotCmd[j] {
+				if r != want && bad < 12 {
+					bad++
+					c.Violation("a command run concurrently with other goroutines' calls sees other process-wide state (file creation mask / working directory) than the same command run sequentially", id, map[string]any{"goroutine": j, "iteration": n, "concurrent": r, "sequential": want})
 				}
 			}
 		}
@@ -753,7 +781,7 @@ func init() {
 	core.Register(&core.Property{
 		ID:    "C16",
 		Level: "exploration",
-		Rule: "rounds = fresh worker processes (quick 16, thorough 48); round k uses G in {2,4,8,16,32} goroutines and GOMAXPROCS in {2,4,16}; every goroutine owns a generated tree (half with file and directory symlinks, half with 2 MiB CRLF files), keys, a chain directory and metadata files, and runs 1 (quick) / 3 (thorough) times the list LoadMetadata of layout and links (first library operation of the process: cold caches), RecordArtifacts with and without normalisation, Metablock Sign/Dump/Load/Verify and Envelope SetPayload/Sign/Dump/Load/Verify with the file rewritten four times under the same base name in every goroutine's own directory, InTotoRun (vhelper), InTotoRecordStart/Stop, InTotoMatchProducts, InTotoVerify (no inspections; two stray links by unauthorized keys for the first step; layout with its own intermediate CA; the caller's list of additional intermediates is one read-only slice with spare capacity shared by all goroutines), InTotoVerify of nested layouts, RecordArtifacts on a tree with a directory symlink cycle (the error text must be the caller's own), InTotoVerifyWithDirectory (own run dir, globally unique inspection name), SubstituteParameters; then a burst of 24 goroutines, each verifying a nested chain 12 times and (one goroutine per actor) a chain with an inspection in its own run directory, the inspection being named alike for all (compared with the sequential results), and setting / dumping / loading 48 envelopes of its own with multi-line content (what is loaded is what was set); then the same lists are executed sequentially on identical copies of the data and compared result by result. Even shards run the -race build with GORACE=halt_on_error=0 log_path=...: report blocks are counted from the log files and attributed by their in_toto frames; the hook handler there only yields. Odd shards run the normal build in census mode: hook events (record_reset / record_symlink) are logged with their owner, the evidence lists the distinct interleavings (windows of 12 events) and the maximum number of calls in flight. Hang monitor in both builds: a goroutine that shares nothing with the actors samples the CPU time of the process; a round whose process consumes no CPU for 45 s while calls are outstanding is reported (calls that never return) with the system call every thread is blocked in. " +
+		Rule: "rounds = fresh worker processes (quick 16, thorough 48); round k uses G in {2,4,8,16,32} goroutines and GOMAXPROCS in {2,4,16}; every goroutine owns a generated tree (half with file and directory symlinks, half with 2 MiB CRLF files), keys, a chain directory and metadata files, and runs 1 (quick) / 3 (thorough) times the list LoadMetadata of layout and links (first library operation of the process: cold caches), RecordArtifacts with and without normalisation, Metablock Sign/Dump/Load/Verify and Envelope SetPayload/Sign/Dump/Load/Verify with the file rewritten four times under the same base name in every goroutine's own directory, InTotoRun (vhelper), InTotoRecordStart/Stop, InTotoMatchProducts, InTotoVerify (no inspections; two stray links by unauthorized keys for the first step; layout with its own intermediate CA; the caller's list of additional intermediates is one read-only slice with spare capacity shared by all goroutines), InTotoVerify of nested layouts, RecordArtifacts on a tree with a directory symlink cycle (the error text must be the caller's own), InTotoVerifyWithDirectory (own run dir, globally unique inspection name), SubstituteParameters; then a burst of 24 goroutines, each verifying a nested chain 12 times and (one goroutine per actor) a chain with an inspection in its own run directory, the inspection being named alike for all (compared with the sequential results), setting / dumping / loading 48 envelopes of its own with multi-line content (what is loaded is what was set), and (every third goroutine) running a shell command in a directory of its own that prints its file creation mask, the mode of a file it creates and its working directory (compared with the sequential run); then the same lists are executed sequentially on identical copies of the data and compared result by result. Even shards run the -race build with GORACE=halt_on_error=0 log_path=...: report blocks are counted from the log files and attributed by their in_toto frames; the hook handler there only yields. Odd shards run the normal build in census mode: hook events (record_reset / record_symlink) are logged with their owner, the evidence lists the distinct interleavings (windows of 12 events) and the maximum number of calls in flight. Hang monitor in both builds: a goroutine that shares nothing with the actors samples the CPU time of the process; a round whose process consumes no CPU for 45 s while calls are outstanding is reported (calls that never return) with the system call every thread is blocked in. " +
 			"non-trivial = a round with >=2 calls in flight; distinct = (mode, round, goroutine, position in its operation list) of the compared concurrent calls, plus (mode, G, GOMAXPROCS, interleaving hash) per round",
 		Assumptions: []string{"inspections of InTotoVerify without run directory use the process cwd and are excluded from 'independent data'; InTotoVerifyWithDirectory drops <inspection>.link into the shared cwd under globally unique names", "the race detector only sees races on executed paths; its silence is 'no report on these executions'"},
 		Workers: func(t string) int {
